@@ -58,7 +58,7 @@ let to_rule idx = function
   | _ -> failwith "rule"
 
 let to_sem = function
-  | A "none" -> SNone | A "identity" -> SIdentity | A "tag" -> STag
+  | A "none" -> SNone | A "identity" -> SIdentity | A "tag" -> STag | A "wrap" -> SWrap
   | L [A "failif"; s] -> SFailIf (to_str s)
   | L [A "raiseif"; s; x] -> SRaiseIf (to_str s, to_nat x)
   | L [A "const"; v] -> SConst (to_value v)
